@@ -22,7 +22,7 @@ from irsx.smat import M, vars_, ZERO, ONE, dot
 from .common import guarded, Results, prove_pairs, write_replay
 
 PROP = "C10"
-SIZES = [(3, 2), (4, 3)]
+SIZES = [(3, 2), (4, 3), (2, 3)]      # tall fully symbolic, tall sampled J, WIDE (under-determined) sampled J
 
 
 def tu():
@@ -231,7 +231,7 @@ def prebuild(tier):
 
 
 TRUSTED = ["A1 real-arithmetic reading (backward error 1e-8 in floating point NOT decided)", "A5 strict convexity => uniqueness of the minimiser; |.|^2 >= 0",
-           "A6 clang/irsx; concolic path discovery (paths not reached by the samples are not covered)", "A7 sizes 3x2 (fully symbolic) and 4x3 (J sampled incl. rank-deficient)"]
+           "A6 clang/irsx; concolic path discovery (paths not reached by the samples are not covered)", "A7 sizes 3x2 (fully symbolic), 4x3 and the wide 2x3 (J sampled incl. rank-deficient)"]
 ASSUMPTIONS = ["lambda > 0, d > 0"]
 UNVERIFIED = ["sparse J / Eigen::SimplicialLDLT", "sizes beyond 4x3 (the property quantifies up to 40x40)", "floating-point backward error and dense-vs-sparse agreement",
               "colwise_norm for sparse matrices"]
